@@ -179,7 +179,7 @@ func runInproc(c *core.Ctx, kind string) {
 	}
 	// (a) write crossing offset k
 	step := 1
-	maxPoints := c.Pick(60, 4096)
+	maxPoints := c.Pick(60, 2048)
 	if total > maxPoints {
 		step = (total + maxPoints - 1) / maxPoints
 	}
@@ -378,7 +378,7 @@ func init() {
 	var subs []core.Sub
 	for _, k := range wrx.Kinds {
 		kind := k
-		subs = append(subs, core.Sub{Name: "inproc-" + kind, N: core.Const(24, 192), Run: func(c *core.Ctx) { runInproc(c, kind) }})
+		subs = append(subs, core.Sub{Name: "inproc-" + kind, N: core.Const(24, 60), Run: func(c *core.Ctx) { runInproc(c, kind) }})
 	}
 	subs = append(subs,
 		core.Sub{Name: "e2e-devfull", N: core.Const(25, 100), Run: runDevFull},
